@@ -25,7 +25,8 @@ import (
 // see, so the detector judges every schedule the DFS visits.
 
 type c19obj struct {
-	name string
+	horizon time.Duration // 0 = 2 s of virtual time
+	name    string
 	// setup builds the object (sequentially, in the main thread) and returns its
 	// concurrent-safe operations.
 	setup func() []c19op
@@ -110,6 +111,9 @@ func c19scenario(obj c19obj, picks []int, bound int) *explore.Scenario {
 	// so names are index based and resolved in the first execution
 	sc := &explore.Scenario{Name: fmt.Sprintf("%s ops%v", obj.name, picks), Bound: bound, NoFP: false}
 	sc.Cfg.Horizon = 2 * time.Second
+	if obj.horizon != 0 {
+		sc.Cfg.Horizon = obj.horizon
+	}
 	sc.Cfg.RandMenu = func(n int64) []int64 { return []int64{0} }
 	sc.Make = func() (func(), func(*zzvsched.Exec) (string, *explore.Violation)) {
 		var names []string
@@ -136,7 +140,7 @@ func c19scenario(obj c19obj, picks []int, bound int) *explore.Scenario {
 func c19objects() []c19obj {
 	lf := logging.NewDefaultLoggerFactory
 	return []c19obj{
-		{"packetio.Buffer", func() []c19op {
+		{name: "packetio.Buffer", setup: func() []c19op {
 			b := packetio.NewBuffer()
 			_, _ = b.Write([]byte("seed"))
 			return []c19op{
@@ -148,7 +152,7 @@ func c19objects() []c19obj {
 				{"SetReadDeadline", func() { _ = b.SetReadDeadline(zzvsched.Now().Add(time.Millisecond)) }},
 			}
 		}},
-		{"deadline.Deadline", func() []c19op {
+		{name: "deadline.Deadline", setup: func() []c19op {
 			d := deadline.New()
 			d.Set(zzvsched.Now().Add(time.Millisecond))
 			return []c19op{
@@ -160,7 +164,7 @@ func c19objects() []c19obj {
 				{"re-arm-at-expiry", func() { zzvsched.Sleep(time.Millisecond); d.Set(zzvsched.Now().Add(5 * time.Millisecond)) }},
 			}
 		}},
-		{"dpipe", func() []c19op {
+		{name: "dpipe", setup: func() []c19op {
 			a, b := dpipe.Pipe()
 			_, _ = b.Write([]byte("seed"))
 			return []c19op{
@@ -172,7 +176,7 @@ func c19objects() []c19obj {
 				{"b.Read", func() { _ = b.SetReadDeadline(zzvsched.Now().Add(time.Millisecond)); _, _ = b.Read(make([]byte, 8)) }},
 			}
 		}},
-		{"vnet socket+router", func() []c19op {
+		{name: "vnet socket+router", setup: func() []c19op {
 			r, _ := vnet.NewRouter(&vnet.RouterConfig{CIDR: "10.0.0.0/24", LoggerFactory: lf()})
 			n1, _ := vnet.NewNet(&vnet.NetConfig{StaticIPs: []string{"10.0.0.1"}})
 			n2, _ := vnet.NewNet(&vnet.NetConfig{StaticIPs: []string{"10.0.0.2"}})
@@ -198,7 +202,7 @@ func c19objects() []c19obj {
 				}},
 			}
 		}},
-		{"token bucket filter", func() []c19op {
+		{name: "token bucket filter", setup: func() []c19op {
 			rec := vnet.ZZNewRecNIC()
 			f, _ := vnet.NewTokenBucketFilter(rec, vnet.TBFRate(vnet.MBit), vnet.TBFMaxBurst(2000))
 			return []c19op{
@@ -211,7 +215,7 @@ func c19objects() []c19obj {
 				{"traffic2", func() { vnet.ZZPush(f, vnet.ZZUDPChunk("10.0.0.1:1", "10.0.0.2:3", make([]byte, 100))) }},
 			}
 		}},
-		{"delay+loss filter", func() []c19op {
+		{name: "delay+loss filter", setup: func() []c19op {
 			rec := vnet.ZZNewRecNIC()
 			df, _ := vnet.NewDelayFilter(rec, time.Millisecond)
 			lfil, _ := vnet.NewLossFilter(df, 0)
@@ -223,7 +227,7 @@ func c19objects() []c19obj {
 				{"traffic-c", func() { zzvsched.Sleep(time.Millisecond); vnet.ZZPush(df, vnet.ZZUDPChunk("10.0.0.1:1", "10.0.0.2:2", []byte("c"))) }},
 			}
 		}},
-		{"udp listener", func() []c19op {
+		{name: "udp listener", setup: func() []c19op {
 			fakenet.Reset()
 			l, _ := udp.Listen("udp", &net.UDPAddr{IP: net.IPv4(127, 0, 0, 1), Port: 4000})
 			sock := fakenet.Sockets[0]
@@ -247,7 +251,23 @@ func c19objects() []c19obj {
 				{"conn.SetDeadline", func() { _ = c.SetDeadline(zzvsched.Now().Add(time.Millisecond)) }},
 			}
 		}},
-		{"NAT router under traffic", func() []c19op {
+		{horizon: 5 * time.Millisecond, name: "udp listener with batch writes", setup: func() []c19op {
+			fakenet.Reset()
+			lc := udp.ListenConfig{Batch: udp.BatchIOConfig{Enable: true, ReadBatchSize: 2, WriteBatchSize: 2, WriteBatchInterval: 2 * time.Millisecond}}
+			l, _ := lc.Listen("udp", &net.UDPAddr{IP: net.IPv4(127, 0, 0, 1), Port: 4000})
+			sock := fakenet.Sockets[0]
+			ra := &net.UDPAddr{IP: net.IPv4(10, 0, 0, 1), Port: 1}
+			sock.Inject(ra, []byte("a0"))
+			c, _ := l.Accept()
+			return []c19op{
+				{"conn.Write-1", func() { _, _ = c.Write([]byte("w1")) }},
+				{"conn.Write-2", func() { _, _ = c.Write(make([]byte, 1600)) }},
+				{"close-all", func() { _ = c.Close(); _ = l.Close() }},
+				{"datagrams", func() { sock.Inject(ra, []byte("a1")); sock.Inject(ra, []byte("a2")) }},
+				{"wait-flush", func() { zzvsched.Sleep(3 * time.Millisecond) }},
+			}
+		}},
+		{name: "NAT router under traffic", setup: func() []c19op {
 			root, _ := vnet.NewRouter(&vnet.RouterConfig{CIDR: "1.2.3.0/24", LoggerFactory: lf()})
 			lan, _ := vnet.NewRouter(&vnet.RouterConfig{CIDR: "10.0.0.0/24", LoggerFactory: lf()})
 			_ = root.AddRouter(lan)
@@ -277,7 +297,7 @@ func c19objects() []c19obj {
 				{"lan.read", func() { _ = ca.SetReadDeadline(zzvsched.Now().Add(time.Millisecond)); _, _, _ = ca.ReadFrom(make([]byte, 8)) }},
 			}
 		}},
-		{"independent networks", func() []c19op {
+		{name: "independent networks", setup: func() []c19op {
 			build := func(cidr, ip string) func() {
 				return func() {
 					r, err := vnet.NewRouter(&vnet.RouterConfig{CIDR: cidr, LoggerFactory: lf()})
@@ -298,10 +318,10 @@ func c19objects() []c19obj {
 	}
 }
 
-func c19counts() []int { return []int{6, 6, 6, 8, 4, 3, 8, 3, 2} }
+func c19counts() []int { return []int{6, 6, 6, 8, 4, 3, 8, 5, 3, 2} }
 
 func init() {
-	register(&Check{ID: "C19",
+	register(&Check{ID: "C19", ShardByScenario: true,
 		Scenarios: func(tier string) []*explore.Scenario {
 			var out []*explore.Scenario
 			bound := 1
@@ -312,10 +332,13 @@ func init() {
 			cnt := c19counts()
 			for oi, o := range objs {
 				n := cnt[oi]
+				if tier == "quick" && o.horizon != 0 {
+					n = 4 // the never-ending batch ticker makes executions long: fewer operations per pair in quick
+				}
 				for i := 0; i < n; i++ {
 					for j := i; j < n; j++ {
-						if i == j && n > 2 && tier == "quick" && !(oi == 8) {
-							continue // same operation twice: thorough only
+						if i == j && tier == "quick" && (oi == 3 || oi == 6 || oi == 7) {
+							continue // same operation twice on the three largest families: thorough only
 						}
 						out = append(out, c19scenario(o, []int{i, j}, bound))
 					}
@@ -328,7 +351,7 @@ func init() {
 			}
 			return out
 		},
-		Rule: "programs: for each object (packet buffer, deadline, dpipe, vnet socket + running router, NAT router under traffic, token bucket filter, delay+loss filter, UDP listener + connection, two independent networks) every unordered pair (thorough: also each operation with itself and selected triples) of its concurrent-safe operations runs in separate threads after a sequential set-up; every schedule within the deviation bound runs under the Go race detector with a scheduler hand-off invisible to it; a violation is a detector report whose two accesses are both in repository code",
+		Rule: "programs: for each object (packet buffer, deadline, dpipe, vnet socket + running router, NAT router under traffic, token bucket filter, delay+loss filter, UDP listener + connection, UDP listener with batch writes, two independent networks) every unordered pair (thorough: also each operation with itself and selected triples) of its concurrent-safe operations runs in separate threads after a sequential set-up; every schedule within the deviation bound runs under the Go race detector with a scheduler hand-off invisible to it; a violation is a detector report whose two accesses are both in repository code",
 		Assumptions: []string{"the race detector keeps a bounded shadow history per memory word; the harnesses are short, so eviction is unlikely but possible",
 			"operations documented as construction-only (TBFQueueSizeInBytes, Bridge.SetLossChance) are not in the alphabet",
 			"happens-before edges of mutex/rwmutex/waitgroup/once/channel/timer/go are re-created for the detector by the shim (runtime.RaceAcquire/Release); the real channel, atomic and go operations are executed by the thread itself"}})
